@@ -1,6 +1,7 @@
 """./check configuration for C01."""
 
-PROP = {'module': 'GolibsVerif.Theorems.C01',
+PROP = {'technique': 'regenerated hazard inventory (go/ast+go/types) with a kernel-evaluated coverage obligation; per-function totality theorems in the panic monad; reflective fuzzing of every inventory entry',
+ 'module': 'GolibsVerif.Theorems.C01',
  'namespace': 'GolibsVerif.C01',
  'rule': 'every exported function/method of netutil, hostsfile, urlutil, stringutil, timeutil that takes text, bytes, net.IP/IPNet/IPMask, '
          'netip values, URLs or a reader (the table is regenerated from the source on every run) is called through reflection with '
